@@ -94,6 +94,8 @@ func (g *MultiPoint) SetCoords(coords []Coord) (*MultiPoint, error) {
 			var err error
 			g.flatCoords, err = deflate0(g.flatCoords, c, g.stride)
 			if err != nil {
+				// deflate0 returned nil coordinates: drop the ends recorded so far as well
+				g.ends = nil
 				return nil, err
 			}
 		}
